@@ -104,7 +104,7 @@ func c03Spec(r *rand.Rand, thorough bool) (string, string, *Prog) {
 	}
 }
 
-var c03Tokens = []string{"-a", "--aa", "-b", "-ab", "-ba", "-o", "v", "-ov", "-o=v", "--out", "--out=v", "-p", "1", "-p2", "-e", "x", "--env-x=y", "-e=z", "x", "y", "p1", "p2", "--", "-", "-z", "--zz", "-o=", "", " ", "-abz", "-ab=v", "---", "-=", "é", "-a=false", "-bo", "-boq"}
+var c03Tokens = []string{"-a", "--aa", "-b", "-ab", "-ba", "-o", "v", "-ov", "-o=v", "--out", "--out=v", "-p", "1", "-p2", "-e", "x", "--env-x=y", "-e=z", "x", "y", "p1", "p2", "--", "-", "-z", "--zz", "-o=", "", " ", "-abz", "-ab=v", "---", "-=", "é", "-a=false", "-bo", "-boq", "+1", "%d", "-5", "caf\xe9", strings.Repeat("-a", 150), strings.Repeat("x", 300), "--" + strings.Repeat("n", 100)}
 
 func c03Argv(r *rand.Rand) []string {
 	n := r.Intn(9)
